@@ -878,10 +878,14 @@ def run(check):
         'the layers below the WSGI layer',
         'observed, not proved: the PEP 3333 typing rules (status line, (str, str) headers, bytes chunks) - checked by '
         'the direct oracle on every case and by wsgiref.validate.validator on a sample',
-        'translator harness/translate/wsgireader.py: the statement skeleton of WsgiApplication.__wsgi_input_to_iterable / '
-        '__read_wsgi_input is compared token for token with the modelled one and the eight deciding expressions '
-        '(limit comparison, loop condition, size of the next read, in-loop guard, end-of-stream test, after-loop test, '
-        'lengths used for an empty / absent header) are translated to Gen/WsgiReader.v, which the model uses',
+        'translator harness/translate/wsgireader.py: the statement skeleton of WsgiApplication.__wsgi_input_to_iterable and '
+        'of the private generator it returns (found by following the self.__x calls, not by name) is compared token for '
+        'token with the modelled one after a normalisation that preserves behaviour by construction (bound names '
+        'alpha-renamed by order of first binding with a capture check; single-assignment temporaries holding a pure '
+        'expression substituted into the directly following pure uses; docstrings and comments dropped), and the eight '
+        'deciding expressions (limit comparison, loop condition, size of the next read, in-loop guard, end-of-stream '
+        'test, after-loop test, lengths used for an empty / absent header) are translated to Gen/WsgiReader.v, which '
+        'the model uses; exception classes, call targets, message texts, statement order and operators stay pinned',
         'modelled, not verified: CPython int() on the CONTENT_LENGTH text (Base/Digits.int_of_text, ASCII digits), '
         'iterator/generator semantics of _ResponseIterator and of the body reader',
     ]
